@@ -700,7 +700,7 @@ class Oracle:
         uq2 = lambda q: UnitQuaternion(float(q[0]), q[1:]).vec
         sites = [('unitvec', 3, base.unitvec), ('unitvec_norm', 3, lambda v: base.unitvec_norm(v)[0]),
                  ('qunit', 4, base.unit), ('Quaternion.unit', 4, lambda q: Quaternion(q).unit().vec),
-                 ('UnitQuaternion(list)', 4, uq1), ('UnitQuaternion(s,v)', 4, uq2), ('UnitQuaternion(ndarray)', 4, uq3),
+                 ('UnitQuaternion(list)', 4, uq1), ('UnitQuaternion(s,v)', 4, uq2), ('UnitQuaternion(ndarray4)', 4, uq3),
                  ('UnitQuaternion(Nx4)', 4, uq4)]
         norms = [1e-6, 1e6, 1.0, 1 + 1e-15, 1 - 1e-15, 1 + 1e-2, 1 - 1e-2]
         for i in range(N):
@@ -764,7 +764,7 @@ class Oracle:
 
     # ------------------------------------------------------------------ twists
     def wcase(self, wn, thr):
-        return 'w-zero' if wn == 0 else ('w-below' if wn < thr else 'w-above')
+        return 'w-zero' if wn == 0 else ('w-subthreshold' if wn < thr else 'w-above')
 
     def twist_valid(self, U, thr, nv):
         """unit rotational part, or (rotational part below the zero threshold and) unit translational part"""
@@ -829,6 +829,9 @@ class Oracle:
                         # rotational part is regarded as zero; whether it is scaled or zeroed is not prescribed here)
                         dres = np.max(np.abs(U[:nv] / max(np.linalg.norm(U[:nv]), 1e-300) - v / np.linalg.norm(v)))
                     self.ok('direction', site, case, dres, TOL, S)
+                    if case != 'w-above':
+                        # since fix 3bd9c1c a rotational part below the zero threshold is exactly zero in the result
+                        self.ok('w-zeroed', site, case, float(np.max(np.abs(U[nv:]))), 0.0, S)
                     self.ok('idempotent', site, case, np.max(np.abs(U2 - U)) / max(1.0, np.max(np.abs(U))), TOL, S)
                     self.ok('fixed', site, 'valid-input:' + case, np.max(np.abs(F0 - V0)) / max(1.0, np.max(np.abs(V0))), TOL, V0)
                 if dim == 3:
@@ -865,7 +868,7 @@ class Oracle:
     def matrices2(self, N):
         rng = self.rng
         sites = [('trnorm2(2x2)', 2, lambda M: base.trnorm2(M)), ('trnorm2(3x3)', 3, lambda M: base.trnorm2(M)),
-                 ('SO2.norm', 2, lambda M: SO2(M, check=False).norm().A), ('SE2.norm', 3, lambda M: SE2(M, check=False).norm().A)]
+                 ('SO2.norm()', 2, lambda M: SO2(M, check=False).norm().A), ('SE2.norm()', 3, lambda M: SE2(M, check=False).norm().A)]
         grid = [1e-15, 1e-12, 1e-9, 1e-6, 1e-4, 1e-3, 1e-2]
         for i in range(N):
             R0 = rand_rot2(rng)
